@@ -219,6 +219,11 @@ type Scenario struct {
 	// variables, directories, random source) seen through the latent seams;
 	// 0 = the fixed world every pristine reference sees.
 	EnvSeed uint64 `json:"env_seed,omitempty"`
+	// ProcEnv: the simulated environment in force while the executing process
+	// STARTED (package initialisers). Serving workers have it fixed for their
+	// lifetime (the driver records it here after the run); a fresh process is
+	// started with it.
+	ProcEnv uint64 `json:"proc_env,omitempty"`
 	// SyncPkgs: packages using synchronisation primitives (from the
 	// instrumenter); a change of their package-level state is not by itself
 	// a race and is not reported as I-GLOBAL (the worker still retires).
